@@ -376,12 +376,21 @@ class Zygote(object):
         trig = self.trig[k][0]
         for j in range(self.NSERVERS):
             os.close(self.trig[j][1])
+        # warm-up: the first fork of a process runs lazy at-fork initialisations that leave
+        # allocations behind; do them now so that every served child sees the same heap
+        for _ in range(3):
+            if os.fork() == 0:
+                os._exit(0)
+        # the serving loop must leave the heap exactly as it found it: the trigger byte is read
+        # into a preallocated buffer (os.read would allocate a new bytes object per request and
+        # make the free lists alternate between two states)
+        buf = bytearray(1)
+        bufs = [buf]
         while True:
-            b = os.read(trig, 1)
-            if not b:
+            if os.readv(trig, bufs) == 0:
                 return
             if os.fork() == 0:
-                self._child(b[0])
+                self._child(buf[0])
 
     def _child(self, slot):
         code = 0
